@@ -37,15 +37,17 @@ def run_native(pid: str, desc: Dict, repo: str = "/repo", timeout: int = 300) ->
         shutil.rmtree(d, ignore_errors=True)
 
 
-def run_e2e(pid: str, n_random: int, seed: int, repo: str = "/repo", timeout: int = 1800, scenario: Optional[Dict] = None) -> Dict:
+def run_e2e(pid: str, n_random: int, seed: int, repo: str = "/repo", timeout: int = 1800, scenario: Optional[Dict] = None, cli: bool = False) -> Dict:
     """Bounded native stand-in (harness/e2e.py) in a fresh interpreter importing the rp2 of `repo`."""
     d = tempfile.mkdtemp(prefix="rp2e2e_")
     try:
         env = dict(os.environ)
         env["PYTHONPATH"] = os.path.join(os.path.abspath(repo), "src") + os.pathsep + VERIF
-        cmd = [sys.executable, "-m", "harness.e2e_main", pid, str(n_random), str(seed)]
+        env["RP2_VERIF_REPO"] = os.path.abspath(repo)
+        cmd = [sys.executable, "-m", "harness.cli_main" if cli else "harness.e2e_main", pid, str(n_random), str(seed)]
         if scenario is not None:
             sp = os.path.join(d, "scenario.json")
+            cmd[2] = "harness.cli_main" if cli else "harness.e2e_main"
             with open(sp, "w") as f:
                 json.dump(scenario, f)
             cmd += ["--scenario", sp]
